@@ -160,6 +160,10 @@ def check_snapshot(model, rep):
                     else:
                         P['own'] = P['own'] or (f'the {v!r} column of a {cls} is not written although {v!r} is selected and recorded '
                                                 f'(remaining conditions: {unit_guard[:2]}): selecting {v!r} alone returns an empty (NaN) column', o.loc or m.node.lineno)
+                if records and not wrote and own_flag and not own_false and not own_true and not any(f in flags for f in own_flag):
+                    # the variable's own flag was never consulted on this path: the class's block was skipped as a whole
+                    P['own'] = P['own'] or (f'the {v!r} column of a {cls} is not written, whatever its computability flag says: a {cls} that records '
+                                            f'{v!r} gets an empty (NaN) column', o.loc or m.node.lineno)
                 if not wrote:
                     continue
                 # the cell: interp#k@j
